@@ -31,6 +31,10 @@ META = {
 def shape(ev, clause):
     if ev['ev'] != 'run':
         return 'split|maxh=%d' % ev.get('max_handles', -1)
+    if clause == 'Inv_C19_Content' and ev.get('stale'):
+        for f in ev['final']:
+            if f['p'] in ev['stale'] and 0 in f['recs'] and len(f['recs']) > 1:
+                return 'stale_file_appended_to|method=%s' % ev.get('method')
     if clause.startswith('Inv_C19_Raise'):
         for i, o in enumerate(ev['ops']):
             if o['op'] == 'w' and o['raised'] != 'none':
@@ -52,7 +56,7 @@ def key_fn(ev, clause):
 
 def what_fn(ev, clause):
     if ev['ev'] == 'run':
-        small = {k: ev[k] for k in ('src', 'method', 'K', 'mh', 'pe', 'bad', 'tfs')}
+        small = {k: ev[k] for k in ('src', 'method', 'K', 'mh', 'pe', 'bad', 'tfs', 'stale')}
         small['ops'] = [[o['op'], o['p'], o['x'], o['raised']] for o in ev['ops']][:12]
         return '%s: %s' % (clause, json.dumps(small))
     return '%s: %s' % (clause, json.dumps(ev)[:300])
@@ -92,6 +96,7 @@ def run(tier):
     c.mc_negative('HandleLimiter', 'MC_HandleLimiter_impl_closeall_q.cfg', expect_inv='Inv_C19_Raise', workers=4)
     c.mc_negative('HandleLimiter', 'MC_HandleLimiter_impl_closeall_leak_q.cfg', expect_inv='Inv_C19_NoLeak', workers=4)
     c.mc_negative('HandleLimiter', 'MC_HandleLimiter_impl_partial_q.cfg', expect_inv='Inv_C19_Raise', workers=4)
+    c.mc_negative('HandleLimiter', 'MC_HandleLimiter_mut_seen_early_q.cfg', expect_inv='Inv_C19_Content', workers=4)
     c.mc_negative('SplitPasses', 'MC_SplitPasses_noskip_q.cfg', expect_inv='Inv_C19_OpenOnce', workers=4)
 
     scns = gen_scenarios(tier, c)
@@ -114,13 +119,13 @@ def run(tier):
     # binding self-tests: corrupted copies of accepted observations must be rejected by TLC
     bad_lines = set(x['line'] for x in r['rejects'])
     good = [e for i, e in enumerate(events) if (i + 1) not in bad_lines and e['ev'] == 'run'
-            and any(f['recs'] for f in e['final']) and len(e['final']) >= 1
+            and any(f['recs'] and f['recs'] != [0] for f in e['final'])
             and all(o['raised'] == 'none' for o in e['ops'])][:3]
     goodsplit = [e for i, e in enumerate(events) if (i + 1) not in bad_lines and e['ev'] == 'split' and e['out']
                  and any(len(o['idx']) > 1 for o in e['out'])][:1]
     if len(good) == 3 and goodsplit:
         def mut(evs):
-            f = [x for x in evs[0]['final'] if x['recs']][0]
+            f = [x for x in evs[0]['final'] if x['recs'] and x['recs'] != [0]][0]
             f['recs'] = f['recs'][:-1]                                        # a lost record
             w = [o for o in evs[1]['ops'] if o['op'] == 'w'][-1]
             w['raised'] = 'KeyError'                                          # an unjustified raise (also: record then missing)
@@ -150,7 +155,7 @@ def run(tier):
                          'one event = one whole scenario (all calls, all open() attempts, all produced files)'
                          % (q, '' if tier == 'quick' else ' (every 1st) and 4000 -simulate behaviours of GEN_HandleLimiter_sim.cfg'),
                     exhaustive=False,
-                    extra_cov={'distinct_nontrivial': len(set(json.dumps([e.get('K'), e.get('mh'), e.get('pe'), e.get('bad'), e.get('tfs'),
+                    extra_cov={'distinct_nontrivial': len(set(json.dumps([e.get('K'), e.get('mh'), e.get('pe'), e.get('bad'), e.get('tfs'), e.get('stale'),
                                                                           e.get('src'), e.get('method'),
                                                                           [[o['op'], o['p']] for o in e.get('ops', [])],
                                                                           e.get('recs'), e.get('max_handles')]) for e in events))})
@@ -162,7 +167,7 @@ def replay(path):
     ev = rp['case']['event']
     out = os.path.join(vlib.scratch(), 'replay.ndjson')
     if ev['ev'] == 'run':
-        scn = {'K': ev['K'], 'mh': ev['mh'], 'pe': ev['pe'], 'bad': ev['bad'], 'tfs': ev['tfs'],
+        scn = {'K': ev['K'], 'mh': ev['mh'], 'pe': ev['pe'], 'bad': ev['bad'], 'tfs': ev['tfs'], 'stale': ev.get('stale', []),
                'ops': [{'op': o['op'], 'p': o['p'], 'x': o['x']} for o in ev['ops']]}
         code = ('import json,sys,os\n'
                 'import drive_handlelimiter as d\n'
